@@ -173,6 +173,26 @@ class Prefixed:
         return self.d.pick(self.prefix + name, seq)
 
 
+PATH_SECONDS = 90
+
+
+class PathTimeout(BaseException):
+    """raised by the per-path watchdog (BaseException: harnesses catch Exception to classify what the code under test raises)"""
+
+
+def _on_alarm(signum, frame):
+    raise PathTimeout()
+
+
+def _arm(seconds):
+    import signal
+    try:
+        signal.signal(signal.SIGALRM, _on_alarm)
+        signal.setitimer(signal.ITIMER_REAL, seconds)
+    except (ValueError, OSError):      # not in the main thread of the worker
+        pass
+
+
 def explore(fn, max_paths=200000, max_seconds=600.0, sample_paths=3, keep_violations=50):
     """fn(draw) -> True | failure tuple.  Returns a result dict."""
     t0 = time.time()
@@ -194,7 +214,27 @@ def explore(fn, max_paths=200000, max_seconds=600.0, sample_paths=3, keep_violat
         d = SymDraw()
         ok = None
         try:
-            ok = fn(d)
+            _arm(PATH_SECONDS)
+            try:
+                ok = fn(d)
+            finally:
+                _arm(0)
+        except PathTimeout:
+            # one path ran far longer than any path should: non-termination (of the code under test on this input, or of the string
+            # model).  Nothing is claimed; the witness is reported so that the input can be tried on the real code.
+            try:
+                wit = d.concretize(E.solver.model()) if E._check() == z3.sat else None
+            except Exception:
+                wit = None
+            res['unsupported'].append('one path ran longer than %d s (non-termination?) @ %s; inputs so far: %r' % (PATH_SECONDS, _where(), wit))
+            res['exhaustive'] = False
+            E.active = False
+            break
+        except MemoryError:
+            res['unsupported'].append('out of memory on one path @ %s' % _where())
+            res['exhaustive'] = False
+            E.active = False
+            break
         except Abort:
             ok = None
             res['aborted'] += 1
